@@ -97,6 +97,11 @@ def parse_header(buf, off=0):
         h.attr = b[19]
         h.crc = struct.unpack_from("<H", b, 21)[0]
         h.os = b[23]
+        if h.os == 0x4B:
+            # OS-9/68k LHA writes level-2 headers whose length field is two bytes short (corpus: lha_osk_201/h2_*)
+            total += 2
+            if len(b) < total:
+                return None
         nxt = struct.unpack_from("<H", b, 24)[0]
         p = 26
         while nxt != 0:
